@@ -295,7 +295,8 @@ def expect_load(
         may or may not fire — both accepted);
       * otherwise the source is consulted: the armed fault, or what the twin returns now;
         a success is stored (evicting the least recently used entry when full), a
-        failure leaves the model unchanged.
+        failure leaves the entries unchanged (the lookup of a resident key still counts as
+        a use of that key).
     """
     e = model.get(key)
     if e is not None:
@@ -305,15 +306,17 @@ def expect_load(
             out = ("ok", now[1]) if now[0] == "ok" else ("err", now[1])
             alts = [Alt(out, "hit-verified", False, lambda: model.touch(key))]
             if armed:
-                alts.append(Alt(("err", armed), "reload-failed", True, _noop))
+                alts.append(Alt(("err", armed), "reload-failed", True, lambda: model.touch(key)))
             return alts
         kind = "reload"
     else:
         kind = "miss"
+    # a failed load leaves the entries unchanged; looking a resident key up is a use
+    fail_commit = _noop if e is None else (lambda: model.touch(key))
     if armed:
-        return [Alt(("err", armed), kind + "-failed", True, _noop)]
+        return [Alt(("err", armed), kind + "-failed", True, fail_commit)]
     if now[0] == "err":
-        return [Alt(("err", now[1]), kind + "-error", False, _noop)]
+        return [Alt(("err", now[1]), kind + "-error", False, fail_commit)]
     ent = Entry(now[1], now[2], now[3], step)
 
     def commit() -> None:
